@@ -187,3 +187,104 @@ def ElfDesc.indexOfName (d : ElfDesc) (name : Bytes) : Option Nat :=
   idxs.getLast?
 
 end PyElf.Spec
+
+namespace PyElf.Spec
+open PyElf
+
+/-! ### Well-formedness of a description (Appendix D of DESIGN.md, C01) -/
+
+def typeIn (h : Val) (names : List String) : Bool :=
+  match h.getField "sh_type" with
+  | .ok (.str t) => names.contains t
+  | _ => false
+
+def fieldNat (h : Val) (k : String) : Nat :=
+  match h.getField k with
+  | .ok (.int n) => n.toNat
+  | _ => 0
+
+/-- the decoded header of section `i`, if it exists and decodes -/
+def ElfDesc.decHdr (env : Env) (d : ElfDesc) (i : Nat) : Option Val :=
+  match d.sections[i]? with
+  | some s => (d.S.Elf_Shdr.decodeRaw env [] s.raw).toOption
+  | none => none
+
+def bodyOf (s : SecDesc) : Bytes := s.body.getD []
+
+/-- what the gABI (and the vendor documents for the GNU/Sun sections) require of a section so that a
+    reader can interpret it: links designate tables of the right type, entry sizes fit, the tables
+    a reader must parse on sight lie inside the body.  `fuel` bounds the link depth
+    (versym → symtab → strtab). -/
+def ElfDesc.secOk (env : Env) (d : ElfDesc) : Nat → Nat → Bool
+  | 0, _ => false
+  | fuel+1, i =>
+    match d.sections[i]?, d.decHdr env i with
+    | some s, some h =>
+      let w := d.cls / 8
+      let link := fieldNat h "sh_link"
+      let linkIs (types : List String) : Bool :=
+        match d.decHdr env link with
+        | some lh => typeIn lh types && d.secOk env fuel link
+        | none => false
+      let entsize := fieldNat h "sh_entsize"
+      let size := fieldNat h "sh_size"
+      let off := fieldNat h "sh_offset"
+      let body := bodyOf s
+      let word (k : Nat) : Nat := decNat d.le ((body.drop (4 * k)).take 4)
+      -- SHF_COMPRESSED sections are C02's subject
+      (fieldNat h "sh_flags" &&& 0x800 == 0) &&
+      (if typeIn h ["SHT_SYMTAB", "SHT_DYNSYM", "SHT_SUNW_LDYNSYM"] then
+         linkIs ["SHT_STRTAB"] && decide (0 < entsize) && size % entsize == 0
+       else if typeIn h ["SHT_SUNW_syminfo", "SHT_GNU_versym"] then linkIs ["SHT_SYMTAB", "SHT_DYNSYM"]
+       else if typeIn h ["SHT_GNU_verneed", "SHT_GNU_verdef"] then linkIs ["SHT_STRTAB"]
+       else if typeIn h ["SHT_REL"] then entsize == 2 * w
+       else if typeIn h ["SHT_RELA"] then entsize == 3 * w
+       else if typeIn h ["SHT_RELR"] then entsize == w
+       else if typeIn h ["SHT_DYNAMIC"] then linkIs ["SHT_STRTAB", "SHT_NOBITS"]
+       else if typeIn h ["SHT_ARM_ATTRIBUTES", "SHT_RISCV_ATTRIBUTES"] then
+         decide (off < 2 ^ 63) && body.head? == some 0x41
+       else if typeIn h ["SHT_HASH"] then
+         linkIs ["SHT_SYMTAB", "SHT_DYNSYM"] && decide (off < 2 ^ 63) &&
+         decide (8 ≤ body.length) && decide (8 + 4 * (word 0 + word 1) ≤ body.length)
+       else if typeIn h ["SHT_GNU_HASH"] then
+         linkIs ["SHT_SYMTAB", "SHT_DYNSYM"] && decide (off < 2 ^ 63) &&
+         decide (16 ≤ body.length) && decide (16 + w * word 2 + 4 * word 0 ≤ body.length)
+       else true)
+    | _, _ => false
+
+/-- the machine class, OS ABI and core flags of the description are the ones its header encodes -/
+def ElfDesc.cfgOk (env : Env) (d : ElfDesc) : Bool :=
+  match d.S.Elf_Ehdr.decodeRaw env [] d.ehdrRaw with
+  | .ok h =>
+    let em := (h.getField "e_machine").toOption.getD .none
+    let et := (h.getField "e_type").toOption.getD .none
+    let osabi := ((h.getField "e_ident").toOption.getD .none |>.getField "EI_OSABI").toOption.getD .none
+    let mc := match em with
+      | .str m => ((machineClass.find? (·.1 == m)).map (·.2)).getD "default"
+      | _ => "default"
+    mc == d.mclass && (d.solaris == (match osabi with | .str "ELFOSABI_SOLARIS" => true | _ => false)) &&
+      (d.core == (match et with | .str "ET_CORE" => true | _ => false))
+  | .error _ => false
+
+def ElfDesc.wf (env : Env) (d : ElfDesc) : Bool :=
+  let n := d.sections.length
+  let m := d.segments.length
+  (d.cls == 32 || d.cls == 64) &&
+  machineClasses.contains d.mclass && d.cfgOk env &&
+  (match d.regions with
+   | some rs => regionsDisjoint (sortRegions rs)
+   | none => false) &&
+  d.escapesOk && d.namesOk &&
+  (n == 0 || decide ((d.S.Elf_Shdr.sizeof.getD 0) ≤ d.shentsize)) &&
+  (m == 0 || decide ((d.S.Elf_Phdr.sizeof.getD 0) ≤ d.phentsize)) &&
+  decide (d.shoff + n * d.shentsize < 2 ^ 63) && decide (d.phoff + m * d.phentsize < 2 ^ 63) &&
+  decide (n < 2 ^ 32) && decide (m < 2 ^ 32) &&
+  (n == 0 || (decide (0 < d.shoff) && decide (d.shstrndx < n))) && (m == 0 || decide (0 < d.phoff)) &&
+  -- name offsets are reachable by a seek
+  (match d.sections[d.shstrndx]? with
+   | some st => d.sections.all fun s => decide (getNatD st.hdr "sh_offset" + s.nameOff < 2 ^ 63)
+   | none => true) &&
+  -- the string table section itself is not flagged compressed, and every section is interpretable
+  (List.range n).all (fun i => d.secOk env 4 i)
+
+end PyElf.Spec
